@@ -129,7 +129,62 @@ func ruleOrderMapRange(c *Ctx) []Obligation {
 	return obs
 }
 
+// visitsOwnEntry: the loop body only converts the element (ToEntry, memoised per node), calls GetErrors / FixChoice on
+// that entry, and appends to an error list — the per-module sweep shape, wherever it is written.
+func (c *Ctx) visitsOwnEntry(mr mapRange) bool {
+	_, val := mr.keyVal()
+	if val == nil {
+		return false
+	}
+	okAll, n := true, 0
+	for _, b := range mr.fn.Blocks {
+		if !mr.inBody(b) {
+			continue
+		}
+		for _, in := range b.Instrs {
+			switch x := in.(type) {
+			case *ssa.Store:
+				if _, isAlloc := x.Addr.(*ssa.Alloc); !isAlloc && !isVariadicArray(rootOf(x.Addr)) {
+					okAll = false
+				}
+			case *ssa.MapUpdate, *ssa.Return:
+				okAll = false
+			case ssa.CallInstruction:
+				com := x.Common()
+				if bi, ok := com.Value.(*ssa.Builtin); ok {
+					if bi.Name() == "append" && !isErrorSlice(x.Value().Type()) {
+						okAll = false
+					}
+					continue
+				}
+				cal := com.StaticCallee()
+				if cal == nil {
+					okAll = false
+					continue
+				}
+				switch c.FnName(cal) {
+				case "yang.ToEntry":
+					if !derivesFrom(com.Args[0], func(y ssa.Value) bool { return y == val }) {
+						okAll = false
+					}
+					n++
+				case "yang.(*Entry).GetErrors", "yang.(*Entry).FixChoice":
+					if call, ok := com.Args[0].(*ssa.Call); !ok || c.FnName(call.Call.StaticCallee()) != "yang.ToEntry" {
+						okAll = false
+					}
+				default:
+					okAll = false
+				}
+			}
+		}
+	}
+	return okAll && n > 0
+}
+
 func (c *Ctx) mapRangeJustification(mr mapRange, con string) (string, bool) {
+	if c.visitsOwnEntry(mr) {
+		return "I5/I4 per-module visit: the body converts the element with ToEntry (memoised per node, writes entries keyed by the node) and only collects its errors / fixes its own choices; error lists are sorted at the boundary", true
+	}
 	fnName := c.FnName(mr.fn)
 	mp := AccessPath(mr.rng.X)
 	suffix := mp
